@@ -945,14 +945,32 @@ def _tailify(stmts, conv):
     for i, st in enumerate(stmts):
         if isinstance(st, ast.Return):
             return out + conv(st.value), True
+        if isinstance(st, ast.Raise):
+            return out + [st], True          # nothing falls through a raise
         if _has_return(st):
             rest = stmts[i + 1:]
             if isinstance(st, ast.Try):
                 # returns in the handlers / the else suite only: the statements after the try run when the body completed
                 # normally (-> appended to the else suite, which no handler covers, like the original position) and after a
                 # handler that falls through (-> appended to that handler)
-                if any(_has_return(x) for x in st.body) or any(_has_return(x) for x in st.finalbody):
-                    raise _Refuse("return inside a try body / finally")
+                if any(_has_return(x) for x in st.finalbody):
+                    raise _Refuse("return inside finally")
+                if any(_has_return(x) for x in st.body):
+                    # only as the last statement of the body: `try: ...; return E` evaluates E under the handlers and leaves;
+                    # the value is kept in a temporary and the leaving moves to the else suite (which the body skipped anyway)
+                    if not (isinstance(st.body[-1], ast.Return) and not any(_has_return(x) for x in st.body[:-1]) and not st.orelse):
+                        raise _Refuse("return inside a try body")
+                    tmp = "_hret"
+                    val = st.body[-1].value if st.body[-1].value is not None else ast.Constant(value=None)
+                    body2 = list(st.body[:-1]) + [ast.Assign(targets=[ast.Name(id=tmp, ctx=ast.Store())], value=val)]
+                    o = conv(ast.Name(id=tmp, ctx=ast.Load()))
+                    hs, all_t = [], True
+                    for h in st.handlers:
+                        hb, th = _tailify(list(h.body) + rest, conv)
+                        hs.append(ast.ExceptHandler(type=h.type, name=h.name, body=hb or [ast.Pass()]))
+                        all_t = all_t and th
+                    new = ast.Try(body=body2, handlers=hs, orelse=o, finalbody=st.finalbody)
+                    return out + [new], all_t
                 o, to = _tailify(list(st.orelse) + rest, conv)
                 hs, all_t = [], to
                 for h in st.handlers:
